@@ -134,6 +134,25 @@ def drive(level: int) -> int:
 	return engine.boost(other.power)
 '''
 
+P_ACCESS = '''class Account:
+	owner: str
+	_balance: int
+	tags: str
+	__secret: int
+
+	def __init__(self, owner: str, amount: int) -> None:
+		self.owner = owner
+		self._balance = amount
+		self.tags = owner
+		self.__secret = amount + 1
+
+	def total(self) -> int:
+		return self._balance + self.__secret
+
+def open_account(holder: str) -> int:
+	account = Account(holder, 3)
+	return account.total()
+'''
 P_CLASSES_CFG = P_CLASSES + '''
 def weigh(box: Box, twin: Twin, shape: Shape) -> int:
 	return box.depth + twin.count + shape.count
@@ -144,6 +163,7 @@ PROGRAMS = {
     'funcs': {'prog_funcs': P_FUNCS},
     'classes': {'prog_classes': P_CLASSES},
     'classes@immutable:Shape': {'prog_classes_cfg': P_CLASSES_CFG},
+    'access': {'prog_access': P_ACCESS},
     'modules': {'mod_a': P_MOD_A, 'mod_b': P_MOD_B},
 }
 
@@ -161,7 +181,8 @@ def user_identifiers(sources: dict) -> list:
     names = []
 
     def add(n):
-        if n and n not in RESERVED and not (n.startswith('__') and n.endswith('__')) and n not in names and n not in sources:
+        # (a leading underscore is an access level, not only a spelling: such names are not renamed)
+        if n and n not in RESERVED and not n.startswith('_') and n not in names and n not in sources:
             names.append(n)
     for src in sources.values():
         for node in ast.walk(ast.parse(src)):
